@@ -228,7 +228,7 @@ def run_shard(spec):
             continue
         case = gen_case(core.rng(PID, spec["seed"], spec["shard"], i), dict(spec, case_index=i + spec["shard"] * 5))
         problems, run = execute(case, result)
-        result.case({"trigger": case["meta"]["trigger"], "payloads": len(case["generations"][0]["payloads"])},
+        result.case(common.sample(case, run, **{"trigger": case["meta"]["trigger"], "payloads": len(case["generations"][0]["payloads"])}),
                     nontrivial=bool(run.of("cancelled")), key=common.shape(case) + case["meta"]["trigger"])
         for what, mech in problems:
             clean = {k: v for k, v in spec.items() if k != "only_case"}
